@@ -120,7 +120,7 @@ func VC01_Relay() {
 		start = rt.Str("method", clsToken+"-[%]", 1, L) + " sip:" + rt.Str("ruser", clsUser, 1, L) + "@" + wService + " SIP/2.0"
 		head = "Via: SIP/2.0/UDP 10.0.2.2:5060;branch=z9hG4bKa\r\n"
 	case 1:
-		start = "INVITE sip:bob@far.example.net SIP/2.0"
+		start = "INVITE sip:bob@" + rt.Str("rhost", clsHost, 1, L) + ".example.net SIP/2.0"
 		head = "Via: SIP/2.0/UDP 10.0.2.2:5060;branch=z9hG4bKa\r\nRoute: <sip:10.0.3.3:5070;lr" + trParam + ">\r\n"
 	case 2:
 		start = "INVITE sip:bob@static.example.org SIP/2.0"
@@ -131,9 +131,9 @@ func VC01_Relay() {
 	}
 	to := "<sip:bob@static.example.org>"
 	if path != 2 {
-		to = "<sip:bob@nowhere.example.net>;tag=" + rt.Str("totag", clsToken, 1, L)
+		to = "<sip:bob@" + rt.Str("tohost", clsHost, 1, L) + ".nowhere.example.net>;tag=" + rt.Str("totag", clsToken, 1, L)
 	}
-	add("From", "\"A\" <sip:alice@example.com>;tag="+rt.Str("fromtag", clsToken, 1, L))
+	add("From", "\"A\" <sip:alice@"+rt.Str("fromhost", clsHost, 1, L)+".example.com>;tag="+rt.Str("fromtag", clsToken, 1, L))
 	add("To", to)
 	add("Call-ID", callID)
 	add("CSeq", "1 INVITE")
